@@ -420,10 +420,15 @@ def mutate_lines(lines, rng):
     if c < 0.7 and j + 1 < len(lines[i]["lex"]) and lines[i]["lex"][j + 1][0] not in front_lines.JSON_NAMES:
         lines[i]["lex"][j], lines[i]["lex"][j + 1] = lines[i]["lex"][j + 1], lines[i]["lex"][j]
         return lines, "swap-lexemes"
-    if c < 0.85:
+    if c < 0.8:
         if not any(x[0] in front_lines.JSON_NAMES for x in lines[i]["lex"]):
             del lines[i]
             return lines, "delete-line"
+        return lines, "none"
+    if c < 0.93:
+        if not any(x[0] in front_lines.JSON_NAMES for x in lines[i]["lex"]):
+            lines.insert(i, dict(lines[i]))
+            return lines, "duplicate-line"
         return lines, "none"
     lines[i]["indent"] = rng.randint(0, 12)
     return lines, "reindent-line"
@@ -497,6 +502,72 @@ def slice_frontend(pid, cases, workdir, rep, stats):
                                              "disagree"})
 
 
+COQ_LAYOUTS = [
+    "{| lay_step := fun _ => 3; lay_cr := false; lay_trail := 0; lay_comment := None; lay_before := []; "
+    "lay_after := []; lay_final_nl := true |}",
+    "{| lay_step := fun d => 2 * d; lay_cr := true; lay_trail := 2; lay_comment := Some 1; "
+    "lay_before := [ {| l_indent := 7; l_lex := []; l_comment := None; l_trail := 0; l_cr := false |}; "
+    "{| l_indent := 0; l_lex := []; l_comment := Some 3; l_trail := 1; l_cr := true |} ]; "
+    "lay_after := [ {| l_indent := 5; l_lex := []; l_comment := None; l_trail := 0; l_cr := false |} ]; "
+    "lay_final_nl := false |}",
+]
+
+
+def slice_render(pid, cases, workdir, rep, stats):
+    """the statement of C12_roundtrip, tested by evaluation: for the model p the implementation
+    builds from a generated text, names_ok p, canon (render L p) = structure of p and
+    front_end (render L p) = FOk p, for two layouts L"""
+    import coqeval
+    import pfdl_ast
+    src = []
+    todo = []
+    for c in cases:
+        kind, model = impl_outcome(c["text"])
+        if kind != "model":
+            continue
+        k = len(todo)
+        I = front_lines.FrontInterner()
+        todo.append(dict(c, impl_model=model))
+        parts = ["Definition pr%d : program := %s.\n" % (k, pfdl_ast.coq_program(I, model))]
+        checks = ["names_ok pr%d = true" % k]
+        for j, L in enumerate(COQ_LAYOUTS):
+            checks.append("canon (render (%s) pr%d) = Some (flatten 0 (forest_of pr%d))" % (L, k, k))
+            checks.append("front_end (render (%s) pr%d) = FOk pr%d" % (L, k, k))
+        for j, ch in enumerate(checks):
+            parts.append("Goal True. first [ assert (%s) by (vm_compute; reflexivity); idtac \"@@%d.%d OK\" "
+                         "| idtac \"@@%d.%d FAIL\" ]. Abort.\n" % (ch, k, j, k, j))
+        src.append("".join(parts))
+    if not todo:
+        return
+    nshards = min(16, len(todo))
+    shards = [list(range(len(todo)))[i::nshards] for i in range(nshards)]
+    from concurrent.futures import ThreadPoolExecutor
+
+    def one(ix):
+        out, _ = coqeval.run_coq("\n".join(src[k] for k in shards[ix]), workdir, "render_%d" % ix,
+                                 header="From PFDL.Front Require Import Render.\n")
+        return out
+    with ThreadPoolExecutor(max_workers=16) as ex:
+        outs = "\n".join(ex.map(one, range(nshards)))
+    res = {}
+    for m in re.finditer(r"@@(\d+)\.(\d+) (OK|FAIL)", outs):
+        res[(int(m.group(1)), int(m.group(2)))] = m.group(3)
+    for k, c in enumerate(todo):
+        stats["generated"] += 1
+        stats["render_cases"] += 1
+        stats["compared"] += 1
+        verdicts = [res.get((k, j)) for j in range(1 + 2 * len(COQ_LAYOUTS))]
+        if all(v == "OK" for v in verdicts):
+            stats["agree"] += 1
+            stats["render_roundtrip_holds"] += 1
+        else:
+            rep.violation({"property": pid, "kind": "front", "sub": "render", "text": c["text"],
+                           "impl_model": c["impl_model"], "verdicts": verdicts,
+                           "machinery_note": "the statement of C12_roundtrip (names_ok p; canon (render L p); "
+                                             "front_end (render L p) = FOk p) fails by evaluation for the model "
+                                             "the implementation builds from this text"}, "no-failing-input-found")
+
+
 # ----------------------------------------------------------------------------------------
 # the slice
 # ----------------------------------------------------------------------------------------
@@ -567,6 +638,9 @@ def front_slice(pid, cfg, tier, seed, workdir, rep, stats, findings):
         slice_frontend(pid, cases, workdir, rep, stats)
     else:
         rep.notes.append("coq/Front/FrontEnd.vo not built: Gallina front end not compared")
+    if have_vo("Render") and t.get("coq_render"):
+        cases = coq_cases(seed + 2, pid, t["coq_render"], ["plain"])
+        slice_render(pid, cases, workdir, rep, stats)
     stats["wall_coq_s"] = int(time.time() - t1)
     stats["_distinct"] = distinct
     return samples[:3]
